@@ -340,6 +340,11 @@ func SubscribeWithReplay[T any](
 		offset := bus.lastOffset
 		bus.storeMu.RUnlock()
 
+		// Nothing appended by this bus yet (e.g. the append failed): there is no
+		// position to record, and saving "" would move the subscription back to the start
+		if offset == OffsetOldest {
+			return
+		}
 		subStore.SaveOffset(ctx, subscriptionID, offset)
 	}
 
